@@ -1,7 +1,8 @@
-(* C06 requests: 600..609.  600 is the full SCC reader model and is shared by C05 C15 C16. *)
+(* C06 requests: 600..609.  600 is the full SCC reader model and is shared by C05 C15 C16; 605 is the same model fed with
+   the SCC TEXT through the Coq tokeniser (model/SccTokenise.v). *)
 From Coq Require Import List ZArith QArith Bool.
 From PV Require Import lib.Sx lib.Str lib.Result.
-From PV Require Import model.SccTime model.SccStash model.SccDecoder model.SccPopon spec.SpecSccTime spec.SpecSccTime2 extract.OrCommon.
+From PV Require Import model.SccTime model.SccStash model.SccDecoder model.SccTokenise model.SccPopon spec.SpecSccTime spec.SpecSccTime2 extract.OrCommon.
 Import ListNotations.
 Open Scope Z_scope.
 
@@ -59,6 +60,14 @@ Definition dispatch (code : Z) (arg : sx) : option sx :=
                      match sx_q off, sx_listof sx_sline ls with
                      | Some off, Some ls => of_read_result (read off ls)
                      | _, _ => bad
+                     end
+                 | _ => bad
+                 end)
+  | 605 => Some (match arg with          (* [offset_us; text] -> read offset (tokenise text) *)
+                 | SL [off; SS text] =>
+                     match sx_q off with
+                     | Some off => of_read_result (read off (tokenise text))
+                     | None => bad
                      end
                  | _ => bad
                  end)
